@@ -108,6 +108,8 @@ pub struct PartSpec {
     pub name: &'static str,
     pub custom_msg: bool,
     pub custom_query: bool,
+    /// registry key of the `dyn Interface<..>` handle type for this part ("" for the contract itself)
+    pub dyn_ty: &'static str,
 }
 
 #[derive(Debug, Clone, Copy, PartialEq, Eq)]
